@@ -9,6 +9,7 @@ package main
 import (
 	"encoding/json"
 	"fmt"
+	"os"
 	"sort"
 	"strings"
 
@@ -184,7 +185,11 @@ func main() {
 		ctx, _ := rn.Reset(env.Fork(), rn.ResetLine(g))
 		for i := 0; i < n; i++ {
 			if l := rn.Gen(ctx, g); l != "" {
-				ctx, _ = rn.Exec(ctx, l)
+				var obs string
+				ctx, obs = rn.Exec(ctx, l)
+				if os.Getenv("VERIF_DEBUG_OPS") != "" {
+					fmt.Fprintf(os.Stderr, "%s\n   -> %.300s\n", l, obs)
+				}
 			}
 		}
 		return roundtrip(env, ctx, rn, a["module"], a["prep"] == "1")
